@@ -24,7 +24,7 @@ Fixpoint nodupb (l : list node) : bool :=
 Fixpoint precb (l : list node) (a b : node) : bool :=
   match l with
   | [] => false
-  | x :: t => (Pos.eqb x a && memb b t) || precb t a b
+  | x :: t => if Pos.eqb x a then memb b t else precb t a b   (* lazy: the VM evaluates && eagerly *)
   end.
 
 (* ---- "l is a topological order of g" (decision procedure) ---- *)
@@ -42,7 +42,7 @@ Fixpoint desc_pass (g : graph) (l : list node) (D : list node) : list node :=
   match l with
   | [] => D
   | x :: t =>
-      if existsb (fun e => Pos.eqb (snd e) x && memb (fst e) D) g
+      if existsb (fun e => if Pos.eqb (snd e) x then memb (fst e) D else false) g
       then desc_pass g t (x :: D)
       else desc_pass g t D
   end.
@@ -119,7 +119,7 @@ Definition permb (a b : list node) : bool :=
 (* every node that was below Loop r and ends above it does not depend on Loop r *)
 Definition lifted_indepb (g : graph) (loops pre post : list node) : bool :=
   forallb (fun r => let D := desc_set g pre r in
-     forallb (fun x => negb (precb pre r x && precb post x r) || negb (descb_in D r x)) pre) loops.
+     forallb (fun x => if (if precb pre r x then precb post x r else false) then negb (descb_in D r x) else true) pre) loops.
 
 (* every pair whose relative order was inverted is justified by a loop: the node that went down the
    list is a loop node or depends on one, the node that went up does not depend on that loop.
@@ -127,9 +127,10 @@ Definition lifted_indepb (g : graph) (loops pre post : list node) : bool :=
 Definition inversions_justifiedb (g : graph) (loops pre post : list node) : bool :=
   let sets := map (fun r => (r, desc_set g pre r)) loops in
   forallb (fun y => forallb (fun x =>
-     negb (precb pre y x && precb post x y) ||
-     existsb (fun rD => let r := fst rD in let D := snd rD in
-                (Pos.eqb y r || descb_in D r y) && negb (descb_in D r x) && negb (Pos.eqb x r)) sets) pre) pre.
+     if (if precb pre y x then precb post x y else false) then
+       existsb (fun rD => let r := fst rD in let D := snd rD in
+                (Pos.eqb y r || descb_in D r y) && negb (descb_in D r x) && negb (Pos.eqb x r)) sets
+     else true) pre) pre.
 
 Definition hoist_spec_okb (g : graph) (loops pre post : list node) : bool :=
   permb pre post && topo_okb g post && lifted_indepb g loops pre post.
@@ -200,7 +201,7 @@ Definition first_bad_edge (g : graph) (l : list node) : string :=
 (* first (loop, node) pair lifted above a loop it depends on *)
 Definition first_bad_lift (g : graph) (loops pre post : list node) : string :=
   match flat_map (fun r => let D := desc_set g pre r in map (fun x => (r, x))
-          (filter (fun x => precb pre r x && precb post x r && descb_in D r x) pre)) loops with
+          (filter (fun x => if precb pre r x then if precb post x r then descb_in D r x else false else false) pre)) loops with
   | [] => "-"
   | (r, x) :: _ => show_N (Npos r) ++ ">" ++ show_N (Npos x)
   end.
